@@ -58,6 +58,11 @@ type halfEdgeRecord struct {
 	// in the input geometries.
 	srcFace [2]bool
 
+	// srcFaceCount is the number of polygons of each operand that this edge
+	// explicitly borders onto. It can be more than 1 when polygons within a
+	// GeometryCollection overlap or share boundaries.
+	srcFaceCount [2]int
+
 	// inSet encodes whether or not this edge is (explicitly or implicitly)
 	// part of the input geometry for each operand.
 	inSet [2]bool
